@@ -113,6 +113,15 @@ fn run(ctx: &Ctx) -> Run {
                 let k = (i as usize * threads + w) % 60;
                 let pat = gen::S_PATTERNS[(i as usize / 60 + w) % gen::S_PATTERNS.len()];
                 let s = gen::s_pattern(&mut rng, (res - 1) as u32, pat);
+                if i % 2 == 1 {
+                    // history: the geometry of a 'twin' (same resolution and curve position on another face / quintant, hence
+                    // possibly another curve orientation) is asked for immediately before - a result must not depend on it
+                    let t = rng.usize(60);
+                    let twin = MCell::new(res, (t / 5) as u8, (t % 5) as u8, s);
+                    let _ = cell_polygon(twin);
+                    let _ = centre_unit(encode(twin));
+                    run.count("stratified.primed_with_twin");
+                }
                 check_parent(run, MCell::new(res, (k / 5) as u8, (k % 5) as u8, s), "stratified");
                 run.count(&format!("stratified.res{res:02}"));
                 run.count(&format!("stratified.face{:02}.quintant{}", k / 5, k % 5));
